@@ -439,6 +439,33 @@ func (fx *FuncExec) runRegion(ps *pathState) {
 		return
 	}
 	sb := startIn.Block()
+	// begin at the start of the source statement the call belongs to: the loads and address
+	// computations that feed the call read the state at the region start, they are not "earlier values"
+	{
+		line := fx.fn.Prog.Fset.Position(startIn.Pos()).Line
+		idx := -1
+		for i, in := range sb.Instrs {
+			if in == startIn {
+				idx = i
+			}
+		}
+		for idx > 0 {
+			prev := sb.Instrs[idx-1]
+			pure := false
+			switch prev.(type) {
+			case *ssa.UnOp, *ssa.FieldAddr, *ssa.IndexAddr, *ssa.Field, *ssa.Index, *ssa.BinOp, *ssa.Convert, *ssa.Slice, *ssa.DebugRef, *ssa.ChangeType:
+				pure = true
+			}
+			if !pure {
+				break
+			}
+			if pp := prev.Pos(); pp.IsValid() && fx.fn.Prog.Fset.Position(pp).Line != line {
+				break
+			}
+			idx--
+		}
+		startIn = sb.Instrs[idx]
+	}
 	if fx.inAnyLoop(sb) {
 		fx.aborted = "region start inside a loop is not supported"
 		return
@@ -622,6 +649,16 @@ func (fx *FuncExec) loopVars(ps *pathState, li *LoopInfo) map[string]Val {
 				if p, ok := ps.st.regs[a].(PtrV); ok {
 					if v, ok := ps.st.load(p); ok {
 						vars["rangeindex"] = v
+					}
+				}
+				// the fixed bound of a range loop: the value the incremented counter is compared with
+				for _, in2 := range li.header.Instrs {
+					if b, ok := in2.(*ssa.BinOp); ok && b.Op == token.LSS {
+						if lv, ok := ps.st.regs[b.Y]; ok {
+							vars["rangelen"] = lv
+						} else if c, ok := b.Y.(*ssa.Const); ok && c.Value != nil {
+							vars["rangelen"] = constVal(ps.st, c.Value, c.Type())
+						}
 					}
 				}
 			}
